@@ -57,6 +57,10 @@ VARIANTS = [
     dict(route="matrix", style="alphanum", inf="neg", full=False),
     dict(route="diagram", style="alpha", inf="zero", full=False),
 ]
+# generators named by small integers (diagram route: "any hashable object"); words of integers cannot be spelled as
+# strings by enumerate_words / automaton_multiple, so this variant is observed through accepts() on lists only
+INT_VARIANT = dict(route="diagram", style="int", inf="zero", full=True, accepts_only=True, accepts_upto=5)
+UNIVERSE = dict(orders=list(cc.NAME_ORDERS), histories=["query", "edit_input_then_query"])
 
 
 class CpuLimit(Exception):
@@ -85,22 +89,23 @@ def pairs_of(ws):
     return ["".join(ws[i:i + 2]) for i in range(0, len(ws), 2)]
 
 
-def check_variant(sp, v, do_even, do_faithful, container="list", labels="int"):
+def check_variant(sp, v, do_even, do_faithful, container="list", labels="int", order="sorted", history="query"):
     """Returns (evaluations, [(clause, detail)], sample)."""
     M, L = sp["M"], sp["L"]
     n = 0
     bad = []
     sample = None
     try:
-        G, names, input_unchanged = cc.build_group_ex(M, v["route"], v["style"], v["inf"], container, labels)
+        G, names, input_unchanged, consistent = cc.build_group_full(M, v["route"], v["style"], v["inf"], container, labels, order, history)
     except Exception as e:
         return 1, [("raised:CoxeterGroup", "%s: %s" % (type(e).__name__, e))], None
-    if v["route"] == "diagram" and not np.array_equal(np.asarray(G.coxeter_matrix), np.array(cc.lib_matrix(M, v["inf"]))):
-        return 1, [("constructor", "diagram handed over as a %s: coxeter_matrix %r, diagram says %r"
-                    % (container, np.asarray(G.coxeter_matrix).tolist(), cc.lib_matrix(M, v["inf"])))], None
+    d = consistent()
+    if d:
+        return 1, [("constructor", "%s route%s: %s" % (v["route"], (" (diagram handed over as a %s)" % container) if v["route"] == "diagram" else "", d))], None
     if list(G.ordered_gens) != names:
-        return 1, [("generator_names", "ordered_gens %r, expected %r" % (list(G.ordered_gens), names))], None
-    J = lambda w: "".join(names[g - 1] for g in w)
+        return 1, [("generator_names", "ordered_gens %r, expected %r (order of first appearance)" % (list(G.ordered_gens), names))], None
+    accepts_only = v.get("accepts_only", False)
+    J = lambda w: "".join(str(names[g - 1]) for g in w)
     for sl in (False, True):
         kind = "shortlex" if sl else "geodesic"
         exp = sp["shortlex"] if sl else sp["reduced"]
@@ -108,17 +113,17 @@ def check_variant(sp, v, do_even, do_faithful, container="list", labels="int"):
             t0 = time.process_time()
             A = cpu_limited(BASE_CPU_S, lambda: G.automaton(shortlex=sl))
             t_base = time.process_time() - t0
-            got = sorted(A.enumerate_words(L))
+            got = sorted(A.enumerate_words(L)) if not accepts_only else None
             want = sorted(J(w) for w in exp)
             n += len(want)
-            if got != want:
+            if got is not None and got != want:
                 gs, ws = set(got), set(want)
                 extra = sorted(gs - ws, key=lambda x: (len(x), x))[:5]
                 missing = sorted(ws - gs, key=lambda x: (len(x), x))[:5]
                 dup = len(got) - len(gs)
                 bad.append((kind + ".language", "up to length %d: accepted but not %s: %r; %s but not accepted: %r; duplicates: %d"
                             % (L, "normal forms" if sl else "reduced", extra, "normal forms" if sl else "reduced", missing, dup)))
-            if sl:
+            if sl and not accepts_only:
                 cnt = [0] * (L + 1)
                 for k in range(L + 1):
                     cnt[k] = sum(1 for _ in A.enumerate_fixed_length_paths(k))
@@ -128,18 +133,23 @@ def check_variant(sp, v, do_even, do_faithful, container="list", labels="int"):
                     sample = dict(kind="automaton", matrix=M, route=v["route"], names=names, L=L,
                                   growth=sp["growth"], some_normal_forms=want[len(want) // 2: len(want) // 2 + 6])
             if v["full"]:
+                cap = v.get("accepts_upto", L + 1)
                 for w in sp["reduced"]:
+                    if len(w) > cap:
+                        continue
                     n += 1
                     a = bool(A.accepts(cc.word_names(w, names)))
                     if a != (w in exp):
                         bad.append((kind + ".accepts", "accepts(%r) = %r, spec: reduced%s" % (J(w), a, (", normal form %r" % (w in exp)) if sl else "")))
                         break
                 for w in sp["nonred"]:
+                    if len(w) > cap:
+                        continue
                     n += 1
                     if A.accepts(cc.word_names(w, names)):
                         bad.append((kind + ".accepts_nonreduced", "accepts(%r) = True, but %r already ends in %r" % (J(w), J(w[:-1]), names[w[-1] - 1])))
                         break
-            if do_even:
+            if do_even and not accepts_only:
                 try:
                     E = cpu_limited(3 * t_base + EVEN_CPU_S, lambda: G.automaton(shortlex=sl, even_length=True))
                 except CpuLimit:
@@ -167,7 +177,7 @@ def check_variant(sp, v, do_even, do_faithful, container="list", labels="int"):
             bad.append((kind + ".not_produced", "automaton(shortlex=%r) did not return within %d s of CPU time" % (sl, BASE_CPU_S)))
         except Exception as e:
             bad.append(("raised:" + kind, "%s: %s" % (type(e).__name__, e)))
-    if do_faithful:
+    if do_faithful and not accepts_only:
         try:
             rep = G.canonical_representation()
             ws = sorted(sp["shortlex"], key=lambda w: (len(w), w))
@@ -190,7 +200,7 @@ def check_variant(sp, v, do_even, do_faithful, container="list", labels="int"):
             bad.append(("raised:canonical_representation", "%s: %s" % (type(e).__name__, e)))
     # the queries above must not have changed the group object nor the caller's input
     try:
-        if not do_faithful:
+        if not do_faithful and not accepts_only:
             G.canonical_representation()
         cm = np.asarray(G.coxeter_matrix)
         if not np.array_equal(cm, np.array(cc.lib_matrix(M, v["inf"]))):
@@ -209,17 +219,25 @@ def check_matrix(args):
     tot = 0
     out = []
     sample = None
-    for vi, v in enumerate(VARIANTS[:n_variants]):
+    variants = list(VARIANTS[:n_variants]) + [INT_VARIANT]
+    orders, hists = UNIVERSE["orders"], UNIVERSE["histories"]
+    for vi, v in enumerate(variants):
         container = cc.DIAGRAM_CONTAINERS[(m + vi) % len(cc.DIAGRAM_CONTAINERS)]
         labels = cc.LABEL_TYPES[(m + vi + 1) % 2] if vi > 0 else "int"
-        n, bad, s = check_variant(sp, v, do_even, do_faithful=(vi == 0), container=container, labels=labels)
+        order = orders[(m + vi) % len(orders)]
+        history = hists[(m + vi) % len(hists)]
+        if v.get("accepts_only"):
+            container = "list"
+        if v["route"] == "diagram" and container != "list":
+            history = "query"        # a one-shot iterable leaves the caller nothing to edit
+        n, bad, s = check_variant(sp, v, do_even, do_faithful=(vi == 0), container=container, labels=labels, order=order, history=history)
         if any(c.endswith("not_produced") for c, _ in bad):
             do_even = False     # do not wait for the same construction again under the next variant
         tot += n
         sample = sample or s
         for clause, detail in bad[:3]:
             out.append((dict(matrix=sp["M"], route=v["route"] + ("(%s)" % container if v["route"] == "diagram" else "") + ("[float]" if labels == "float" else ""),
-                             style=v["style"], inf=v["inf"]), clause, detail))
+                             style=v["style"] + ("/" + order if v["route"] == "diagram" else ""), inf=v["inf"], history=history), clause, detail))
     return m, tot, out, sample
 
 
@@ -299,7 +317,10 @@ def run(run, replay=None):
         "even-length variant observed through enumerate_words / accepts on two-letter labels; not built for rank 5 (cost)",
         "an automaton must be returned within 60 s of CPU time, its even-length variant within 3 x the measured time of the base automaton + 20 s",
         "shipped files cox237/334/3334/535: the assignment of labels to pairs of letters is read off the file (relabelling freedom)",
-        "lexicographic order: order of the generators in ordered_gens (matrix index order)",
+        "lexicographic order: order of the generators in ordered_gens (matrix index order; diagram: order of first appearance)",
+        "diagram names first appear in alphabetical / reverse / mixed order (rotation); one extra variant per matrix names the generators "
+        "1..n / n-1..0 / 1..n-1,0 and is observed through accepts() on lists only (words of integers cannot be spelled as strings)",
+        "half of the constructions are followed by the caller overwriting its own array / edge list with another matrix before any query",
         "labels handed over as int64 or float64 with integral values (alternating on the non-primary variants); coxeter_matrix and the "
         "caller's input must be unchanged after the automata and the canonical representation were built",
     ]
@@ -322,10 +343,15 @@ def run(run, replay=None):
         MATS = [row[1] for row in rows]
         RADS = [row[2] for row in rows]
         plan = [(k, row[3], row[4]) for k, row in enumerate(rows)]
-        r, obs, edges, _, _ = cc.run_batch(run, "CoxeterWalk", MATS, RADS, "CoxeterWalk_" + jname,
+        r, obs, edges, _, tables = cc.run_batch(run, "CoxeterWalk", MATS, RADS, "CoxeterWalk_" + jname,
                                            invariants=["TypeOK", "Closed", "DescentsSane", "RelationsHold", "EmitObs"],
                                            action_constraints=[], workers=workers if quick else min(12, core.NCPU))
         r.stdout = ""
+        var = tables.get("VAR")
+        if not var or not set(var["orders"]) <= set(cc.NAME_ORDERS) or "int" not in var["namings"]:
+            raise core.MachineryFailure("CoxeterWalk.tla did not print the table of construction variants")
+        UNIVERSE["orders"] = sorted(var["orders"], reverse=True)
+        UNIVERSE["histories"] = sorted(var["histories"], reverse=True)
         SPEC = {m: prepare(MATS[m], RADS[m], obs[m]) for m in range(len(MATS))}
         run.extra["matrices"] += len(MATS)
         run.extra["elements"] += sum(len(o) for o in obs)
@@ -340,14 +366,14 @@ def run(run, replay=None):
             run.evaluations += tot
             run.traces += 1
             for ctx, clause, detail in bad:
-                key = "cox:%s:%s/%s/%s" % (cc.short(ctx["matrix"]), ctx["route"], ctx["style"], ctx["inf"])
+                key = "cox:%s:%s/%s/%s%s" % (cc.short(ctx["matrix"]), ctx["route"], ctx["style"], ctx["inf"], "/edited" if ctx.get("history", "query") != "query" else "")
                 run.violation(key, clause, dict(case=ctx, observed=detail))
             if sample:
                 run.sample(sample)
         for (m, nv, even) in plan:
-            for vi in range(nv):
-                run.case(key=("cox", jname, m, vi), action="automata(%s)" % VARIANTS[vi]["route"])
-            run.evaluations -= nv       # case() counted them; evaluations are the words compared
+            for vi in range(nv + 1):
+                run.case(key=("cox", jname, m, vi), action="automata(%s)" % (VARIANTS[vi]["route"] if vi < nv else "diagram,int names"))
+            run.evaluations -= nv + 1       # case() counted them; evaluations are the words compared
         if rows[-1][0] == "builtin":
             # shipped automata (the last rows of this job)
             base = len(MATS) - len(bl)
